@@ -18,7 +18,8 @@ from mc.oracles import katz as O
 PROP = "C06"
 LEVEL = "exploration"
 RULE = (
-    "tables: vocabulary V in {2,3}, order N in 1..3 (quick) / 1..4 (thorough), sos inside "
+    "tables: vocabulary V in {2,3} (V=1 with an outside sos for the sparse order-4/5 shapes), order N "
+    "in 1..4 (quick; order 4 = sparse shapes only) / 1..5 (thorough), sos inside "
     "({0,V-1}) and outside ({-1,V,V+2}) the vocabulary; the key alphabet is the vocabulary plus an "
     "outside sos (nA symbols). Per (V,sos,N) the set of listed n-grams of order >= 2 is enumerated, "
     "never drawn (families() holds the exact plan): 'tristate-all' (N=2,nA=2): every unigram and "
@@ -30,7 +31,14 @@ RULE = (
     "finite / log-0 in all combinations; 'structured': complete, complete top order only, complete "
     "minus one, complete with one log-0, all n-grams ending in / starting with / avoiding a token, "
     "the table induced by EVERY corpus string of length N..L (also with all lower orders dropped), "
-    "and 40 fixed (seed-independent) pseudo-random densities. Lower-order suffixes and contexts "
+    "and 40 fixed (seed-independent) pseudo-random densities; 'corpus': the corpus-induced tables "
+    "alone. SPARSE ORDER 4 (quick: every shape with <=2 n-grams of order 2..4 over a 2-symbol key "
+    "alphabet with sos inside (V=2) and outside (V=1), corpus-induced shapes over 3 symbols; thorough: "
+    "<=3 n-grams, 3-symbol alphabets with <=2, and order 5 with <=2 / corpus strings) - orders missing "
+    "for a history while longer contexts carry back-offs; there every back-off weight is non-zero, "
+    "non-dyadic and different per context (tolerance 1e-4), and EVERY history is also evaluated ALONE "
+    "(batch size 1: scalar idx for all lengths, forward and chunked for the longest) besides per "
+    "element and in batches; other tables get the alone pass on every 16th (quick) / 4th table. Lower-order suffixes and contexts "
     "may be missing. Outside 'tristate-all' the unigram states (all finite / one absent / one log-0 "
     "with a back-off) rotate with the table index (they do not alter the trie shape). Values come "
     "from a quarter-integer grid (VERIF_SEED = filler only). Per table: EVERY history of length "
@@ -40,8 +48,8 @@ RULE = (
     "an offset view behind foreign rows (chunked on every table, forward on every other) and as a "
     "transposed-dense view (every other table); scalar idx for every index as int and as negative "
     "0-dim / 1-element tensor; per-element idx: for every minimum m one batch holding every "
-    "(history, idx>=m) pair, all (T+1)^B idx vectors for B<=2 on every table and for B=3 on every "
-    "8th (quick) / 4th (thorough) table; state_dict (every other table also through torch.save/load) "
+    "(history, idx>=m) pair, all (T+1)^B idx vectors for B=1 on every table, B=2 on every (quick: every other) "
+    "table and for B=3 on every 8th (quick) / 4th (thorough) table; state_dict (every other table also through torch.save/load) "
     "-> fresh LookupLanguageModel(V, sos) -> load_state_dict -> full / chunked / scalar / vector "
     "calls again. Guards on every call: the tensors handed in (hist, idx, views, a foreign entry in "
     "prev and the prev dict itself; the caller's prob_dicts when destructive=False; token2id) are "
@@ -115,6 +123,9 @@ def families(tier):
         if fam == "structured":
             nA = len(alphabet(V, sos))
             f["L"] = (N + 1 if nA <= 3 else N) if q else (N + 2 if nA <= 3 else N + 1)
+        if fam == "corpus":
+            f["L"] = K
+            del f["K"]
         fams.append(f)
 
     for V in (2, 3):
@@ -144,6 +155,12 @@ def families(tier):
             (3, -1, 3): [("bounded", 1), ("structured", None)],
             (3, 3, 3): [("bounded", 1)],
             (3, 5, 3): [("bounded", 1)],
+            # order 4, sparse: all shapes with <= 2 n-grams of order 2..4 over a 2-symbol key alphabet
+            # (sos inside: V=2; sos outside: V=1), corpus-induced shapes over 3 symbols
+            (2, 0, 4): [("bounded", 2)],
+            (1, -1, 4): [("bounded", 2)],
+            (2, -1, 4): [("corpus", 4)],
+            (3, 0, 4): [("corpus", 4)],
         }
     else:
         plan = {
@@ -177,6 +194,12 @@ def families(tier):
             (3, -1, 4): [("bounded", 1), ("structured", None)],
             (3, 3, 4): [("bounded", 1)],
             (3, 5, 4): [("bounded", 1)],
+            (1, -1, 4): [("bounded", 3), ("bounded2", 2)],
+            (1, 3, 4): [("bounded", 2)],
+            # order 5 (histories of length 4 = all contexts)
+            (2, 0, 5): [("bounded", 2), ("corpus", 6)],
+            (1, -1, 5): [("bounded", 2), ("corpus", 6)],
+            (2, -1, 5): [("corpus", 5)],
         }
     for (V, sos, N), lst in plan.items():
         for e in lst:
@@ -231,6 +254,8 @@ def gen_structs(f):
                         yield dict(zip(c, states))
     elif fam == "structured":
         yield from _structured(A, N, U, f["L"])
+    elif fam == "corpus":
+        yield from _corpus(A, N, f["L"])
     else:  # pragma: no cover
         raise ValueError(fam)
 
@@ -252,7 +277,20 @@ def _structured(A, N, U, L):
         s = {k: "f" for k in U if a not in k}
         if _has_top(s, N):
             yield s
-    # tables induced by a corpus string: an n-gram is listed iff it occurs in the string
+    yield from _corpus(A, N, L)
+    # fixed pseudo-random densities (the generator is NOT seeded by VERIF_SEED)
+    for j in range(40):
+        r = random.Random(9000 + j)
+        dens = (0.15, 0.3, 0.5, 0.7, 0.85)[j % 5]
+        s = {k: ("i" if r.random() < 0.1 else "f") for k in U if r.random() < dens}
+        if not _has_top(s, N):
+            s[top[j % len(top)]] = "f"
+        yield s
+
+
+def _corpus(A, N, L):
+    """Tables induced by a corpus string: an n-gram is listed iff it occurs in the string (sparse: the
+    last tokens of the string are contexts with back-offs but start no shorter n-gram)."""
     for ell in range(N, L + 1):
         for w in itertools.product(A, repeat=ell):
             s = {}
@@ -262,14 +300,6 @@ def _structured(A, N, U, L):
             yield s
             if N > 2:  # top order only: all suffixes missing
                 yield {k: "f" for k in s if len(k) == N}
-    # fixed pseudo-random densities (the generator is NOT seeded by VERIF_SEED)
-    for j in range(40):
-        r = random.Random(9000 + j)
-        dens = (0.15, 0.3, 0.5, 0.7, 0.85)[j % 5]
-        s = {k: ("i" if r.random() < 0.1 else "f") for k in U if r.random() < dens}
-        if not _has_top(s, N):
-            s[top[j % len(top)]] = "f"
-        yield s
 
 
 def _lp(r):
@@ -286,6 +316,19 @@ def make_dicts(f, struct, index, seed):
     A = alphabet(V, sos)
     r = random.Random("%d/%s/%d/%d/%d/%d" % (seed, f["fam"], V, sos, N, index))
     dicts = [dict() for _ in range(N)]
+    if N >= 4:
+        # order >= 4: every back-off weight non-zero, non-dyadic and different per context (a dropped
+        # or misplaced weight always shows); three decimals so the ARPA text is exact
+        nb = [0]
+
+        def lp(r):
+            return round(-(0.2 + 0.05 * r.randint(0, 120)), 3)
+
+        def lb(r):
+            nb[0] += 1
+            return round(-(0.11 + 0.07 * nb[0] + 0.003 * r.randint(0, 9)), 3)
+    else:
+        lp, lb = _lp, _lb
     if f["fam"] in ("uni", "tristate-all"):
         for a in A:
             st = struct.get((a,))
@@ -299,13 +342,13 @@ def make_dicts(f, struct, index, seed):
         for j, a in enumerate(A):
             if pat == 1 + j:
                 continue
-            p = NEG_INF if pat == 1 + len(A) + j else _lp(r)
-            dicts[0][a] = (p, _lb(r))
+            p = NEG_INF if pat == 1 + len(A) + j else lp(r)
+            dicts[0][a] = (p, lb(r))
     for k in sorted(k for k in struct if len(k) >= 2):
         st = struct[k]
-        p = NEG_INF if st == "i" else _lp(r)
+        p = NEG_INF if st == "i" else lp(r)
         n = len(k)
-        dicts[n - 1][k] = p if n == N else (p, _lb(r))
+        dicts[n - 1][k] = p if n == N else (p, lb(r))
     return dicts
 
 
@@ -474,6 +517,7 @@ class _Model:
         self.N = len(dicts)
         self.hists = hists
         self.T = max(hists)
+        self.tol = 1e-4 if self.N >= 4 else TOL  # order >= 4 uses non-dyadic values (float32 sums)
         self.memo = {}
         self.exp = {}
         for t, hs in hists.items():
@@ -489,11 +533,11 @@ class _Model:
         return r
 
 
-def _agree(out, exp):
+def _agree(out, exp, tol=TOL):
     """None when equal, else the index of the first disagreeing element."""
     if tuple(out.shape) != tuple(exp.shape):
         return "shape"
-    ok = (out == exp) | ((out - exp).abs() <= TOL)
+    ok = (out == exp) | ((out - exp).abs() <= tol)
     if bool(ok.all()):
         return None
     bad = (~ok).nonzero()[0].tolist()
@@ -501,7 +545,7 @@ def _agree(out, exp):
 
 
 def check_model(ctx, V, sos, dicts, hists, index, b3, base_case, save_load=False, every_chunk=True,
-                carrier=None):
+                carrier=None, alone=False):
     """Returns the constructed model object (after all its calls) so that the next table can be loaded
     into it (object history), or None.  ``carrier``: {"lm", "dicts" (json), "kept": (tensor, clone)}."""
     N = len(dicts)
@@ -560,7 +604,7 @@ def check_model(ctx, V, sos, dicts, hists, index, b3, base_case, save_load=False
         for k, (a, b) in enumerate(zip(args, before)):
             if a.shape != b.shape or not torch.equal(a, b):
                 viol(md, "argument-modified", dict(info, argument=k, before=b, after=a))
-        bad = _agree(out, exp)
+        bad = _agree(out, exp, m.tol)
         if bad is None:
             return out
         if bad == "shape":
@@ -679,7 +723,13 @@ def check_model(ctx, V, sos, dicts, hists, index, b3, base_case, save_load=False
             vec_batch(lm, T - 1, 0)
         hs = m.hists[T]
         nb = len(hs)
-        for B in (1, 2, 3) if b3 else (1, 2):
+        if b3:
+            sizes = (1, 2, 3)
+        elif every_chunk or index % 2 == 0:
+            sizes = (1, 2)
+        else:  # light: all B=2 vectors on every other table
+            sizes = (1,)
+        for B in sizes:
             sel = [(index * 7 + j * (nb // 3 + 1) + j) % nb for j in range(B)]
             hist = m.h[T][:, sel].contiguous()
             for vec in itertools.product(range(T + 1), repeat=B):
@@ -687,6 +737,24 @@ def check_model(ctx, V, sos, dicts, hists, index, b3, base_case, save_load=False
                 exp = m.exp[T][iv, torch.tensor(sel)]
                 compare("idx-vector", lambda: lm(hist, idx=iv), exp,
                         {"T": T, "histories": [hs[s] for s in sel], "idx": list(vec)}, args=(hist, iv))
+        # ---- every history evaluated ALONE (batch size 1): whole-batch decisions inside the library
+        # (early exits, minimum index, padding amount) must not change a single query's answer ---------
+        if alone:
+            for t in sorted(m.hists):
+                for b in range(len(m.hists[t])):
+                    h1 = m.h[t][:, b:b + 1]
+                    compare("alone/idx-scalar", lambda: lm(h1, idx=-1), m.exp[t][t, b:b + 1],
+                            {"T": t, "history": m.hists[t][b], "idx": -1, "batch_size": 1})
+            nT = len(m.hists[T])
+            for b in range(nT):
+                if nT <= 8 or b % 4 == index % 4:
+                    h1 = m.h[T][:, b:b + 1].contiguous()
+                    compare("alone/full", lambda: lm(h1), m.exp[T][:, b:b + 1],
+                            {"T": T, "history": m.hists[T][b], "batch_size": 1})
+                    if b % 2 == index % 2:
+                        compare("alone/chunked", lambda: lm.calc_full_log_probs_chunked(h1, dict(), 2),
+                                m.exp[T][:, b:b + 1], {"T": T, "history": m.hists[T][b], "chunk_size": 2,
+                                                       "batch_size": 1})
         check_kept("after all calls on the constructed model")
         # ---- save -> fresh instance -> load -----------------------------------------------------
         try:
@@ -853,11 +921,15 @@ def _tmax(tier):
     return 3 if tier == "quick" else 4
 
 
-def _eval_table(ctx, V, sos, dicts, hists, index, b3, case, arpa=True, every_chunk=True, carriers=None):
+def _eval_table(ctx, V, sos, dicts, hists, index, b3, case, arpa=True, every_chunk=True, carriers=None,
+                alone=None):
     """carriers: dict (V, sos) -> the previous table's model object, into which this table is loaded."""
     key = (V, sos)
+    if alone is None:  # every table of order >= 4, every 16th table otherwise (every 4th when not light)
+        alone = len(dicts) >= 4 or index % (4 if every_chunk else 16) == 2
     car = check_model(ctx, V, sos, dicts, hists, index, b3, case, save_load=index % 2 == 0,
-                      every_chunk=every_chunk, carrier=None if carriers is None else carriers.get(key))
+                      every_chunk=every_chunk, carrier=None if carriers is None else carriers.get(key),
+                      alone=alone)
     if carriers is not None:
         if car is None:
             carriers.pop(key, None)
@@ -922,7 +994,7 @@ def check_history(ctx, seed, only=None):
                         continue
                     for what, out, exp in outs:
                         ctx.case(exp.numel() // V)
-                        bad = _agree(out, exp)
+                        bad = _agree(out, exp, m.tol)
                         if bad is not None:
                             ctx.violation(dict(sig, symptom="differs-from-fresh-instance"), case,
                                           {"call": what, "position": bad,
